@@ -159,6 +159,7 @@ Definition fix4_sort_strings : bool := true.        (* sort_by on StringArray / 
 Definition fix5_empty_dtype : bool := true.         (* an empty int / bool column keeps its declared dtype *)
 Definition fix7_list_empty_dtype : bool := true.     (* a List[int] column without any element keeps int64 (notes/C19.fix-7.diff) *)
 Definition fix8_int_magnitude : bool := true.        (* python ints below and at/above 2^63 in one int column: uint64 or raise, never float64 (notes/C19.fix-8.diff) *)
+Definition fix9_lazy_index : bool := false.          (* table[idx][i] works on a just-indexed table with a ragged column (OPEN finding; third-party npstructures, notes/C19.fix-9.diff not applied) *)
 Definition fix6_flat_cells : bool := true.          (* a flat-encoded (strand) field rejects entries that are not one symbol *)
 Inductive fk := FB (k : kind) | FN (ks : list (list Z * kind)).
 Definition schema := list (list Z * fk).
@@ -712,6 +713,9 @@ Fixpoint first_action (d : list (string * string)) (test : string) : option stri
 (* dtype rule for an empty numeric column: 0 keep float64, 1 cast to int, 2 cast to bool *)
 Definition m_empty_dtype_rule (fx5 size0 is_f64 decl_int_or_bool decl_bool : bool) : Z :=
   if fx5 && (size0 && (is_f64 && decl_int_or_bool)) then (if decl_bool then 2 else 1) else 0.
+(* python ints without a common NumPy integer type (fix-8): 1 hold as uint64, -1 OverflowError, 0 rule not applicable *)
+Definition m_int_magnitude_rule (fx8 decl_int held_fO is_list nonempty all_ints min_nonneg max_lt : bool) : Z :=
+  if fx8 && (decl_int && (held_fO && (is_list && (nonempty && all_ints)))) then (if min_nonneg && max_lt then 1 else (-1)) else 0.
 Definition dt_of_rule (r : Z) : dt := if r =? 1 then DI else if r =? 2 then DB else DF.
 Definition kind_int_or_bool (k : kind) : bool := match k with KInt | KOpt | KBool => true | _ => false end.
 Definition kind_bool (k : kind) : bool := match k with KBool => true | _ => false end.
